@@ -17,16 +17,13 @@ texts = {p: m.text for p, m in r.modules.items()}
 man = json.load(open('/verif/MANIFEST.json'))
 props = [c['property_id'] for c in man['checks']]
 out = {}
-for d in sorted(glob.glob(os.path.join(root, 'C*-m*'))):
+
+
+def one(d):
     sid = os.path.basename(d)
-    if only and sid not in only:
-        continue
-    pid = sid[:3]
     new = apply_unified_diff(texts, open(d + '/patch.diff').read())
     if new is None:
-        out[sid] = {'error': 'patch does not apply'}
-        print(sid, 'NOAPPLY')
-        continue
+        return sid, {'error': 'patch does not apply'}
     row = {}
     for p in props:
         code, ctx = run_property(p, 'quick', '/repo', overlay=new, write=False, quiet=True)
@@ -34,9 +31,17 @@ for d in sorted(glob.glob(os.path.join(root, 'C*-m*'))):
             known = report.load_known()
             row[p] = {'exit': code, 'rules': sorted({f.rule for f in ctx.by(report.VIOLATION) if not report.is_known(f, p, known)}),
                       'undecided': [f.what[:100] for f in ctx.by(report.UNDECIDED)][:2]}
-    out[sid] = row
-    own = row.get(pid, {})
-    print(sid, 'OWN-HIT' if own.get('exit') == 1 else ('own-undecided' if own.get('exit') == 2 else 'MISS'), {p: (v['exit'], v['rules']) for p, v in row.items()}, flush=True)
+    return sid, row
+
+
+from multiprocessing import Pool
+dirs = [d for d in sorted(glob.glob(os.path.join(root, 'C*-m*'))) if not only or os.path.basename(d) in only]
+with Pool(14) as pool:
+    for sid, row in pool.imap_unordered(one, dirs):
+        out[sid] = row
+        own = row.get(sid[:3], {})
+        print(sid, 'OWN-HIT' if own.get('exit') == 1 else ('own-undecided' if own.get('exit') == 2 else 'MISS'), {p: (v['exit'], v['rules']) for p, v in row.items() if isinstance(v, dict)}, flush=True)
+out = dict(sorted(out.items()))
 if os.path.exists(outp) and only:
     old = json.load(open(outp)); old.update(out); out = old
 json.dump(out, open(outp, 'w'), indent=1, sort_keys=True)
